@@ -1,6 +1,7 @@
 SPECIFICATION HSpec
 CONSTANTS
   M = 150
+  HugeFix = TRUE
   MaxPh = 3
   MaxFulls = 6
   Alphabet <- AlphaFull
